@@ -553,6 +553,11 @@ class Session:
             goal = zbool(goal)
         if isinstance(goal, (list, tuple)):
             goal = z3.And([zbool(g) if isinstance(g, Sym) else (z3.BoolVal(g) if isinstance(g, bool) else g) for g in goal]) if goal else True
+        if kind == "inv" and (goal is False or (isinstance(goal, z3.BoolRef) and z3.is_false(goal))):
+            # a loop-invariant clause that fails WITHOUT the solver -- the contract's code found the loop state not to
+            # have the form it describes (a variable missing / of another type / of another rank): that is what a
+            # renamed or restructured loop looks like, not a counterexample.  Reported as UNDECIDED (kind inv-form).
+            kind = "inv-form"
         meta = None
         rp = getattr(self, "_next_replay", None)
         if rp is not None:
@@ -724,6 +729,46 @@ def _stored_names(body):
     return names
 
 
+class _RenamedVars:
+    """view of an environment's variable table under the contract's (baseline) names"""
+
+    def __init__(self, real, m):
+        self.real, self.m = real, m
+
+    def _k(self, k):
+        return self.m.get(k, k)
+
+    def __getitem__(self, k):
+        return self.real[self._k(k)]
+
+    def __setitem__(self, k, v):
+        self.real[self._k(k)] = v
+
+    def __contains__(self, k):
+        return self._k(k) in self.real
+
+    def get(self, k, d=None):
+        return self.real.get(self._k(k), d)
+
+    def pop(self, k, *d):
+        return self.real.pop(self._k(k), *d)
+
+    def setdefault(self, k, d=None):
+        return self.real.setdefault(self._k(k), d)
+
+
+class _RenamedEnv:
+    def __init__(self, env, m):
+        self._env, self._m = env, m
+        self.vars = _RenamedVars(env.vars, m)
+
+    def lookup(self, name):
+        return self._env.lookup(self._m.get(name, name))
+
+    def __getattr__(self, a):
+        return getattr(self._env, a)
+
+
 class LoopSpec:
     """inductive contract of one loop of a repo function.
 
@@ -736,6 +781,10 @@ class LoopSpec:
     def __init__(self, make, check, modifies=None, label="loop"):
         self.make, self.check, self.modifies, self.label = make, check, modifies, label
 
+    def _view(self, env):
+        nm = getattr(self, "name_map", {}) or {}
+        return _RenamedEnv(env, nm) if nm and not isinstance(env, _RenamedEnv) else env
+
     def _havoc_guard(self, I, st, env, done_before):
         mods = _stored_names(st.body)
         if hasattr(st, "target"):
@@ -744,7 +793,8 @@ class LoopSpec:
             for n in _ast.walk(st.target):
                 if isinstance(n, _ast.Name):
                     mods.discard(n.id)
-        declared = set(self.modifies or [])
+        nm = getattr(self, "name_map", {}) or {}
+        declared = {nm.get(x, x) for x in (self.modifies or [])}
         missing = [m for m in mods if m not in declared]
         temporaries = [m for m in missing]
         # variables assigned in the body but not part of the invariant are loop-local temporaries:
@@ -759,10 +809,16 @@ class LoopSpec:
         was restructured (renamed / moved state), not that the property is violated: the cli reports it as UNDECIDED
         (exit 2, 'the loop contract has to be re-attached'), never as a VIOLATION -- a behaviour-preserving
         refactoring must not raise an alarm (seeded_harmless/HC07)"""
+        n0 = sum(1 for o in I.ctx.obligations if o.kind == "inv-form")
+        env = self._view(env)
         try:
             self.check(I, env, i, tag)
         except (Unsupported, TypeError, AttributeError, KeyError, IndexError) as e:
             I.ctx.oblige(f"{I.ctx.ghost.get('prefix', '?')}/inv:{self.label}/{tag}:loop-state-has-the-form-the-invariant-describes", False, (), "inv-form", {"msg": f"{type(e).__name__}: {e}"})
+        if sum(1 for o in I.ctx.obligations if o.kind == "inv-form") > n0:
+            # the loop does not have the form the contract describes: nothing that follows on this path (the havoced
+            # state made from the contract's names, the body run on it, the postconditions) means anything
+            raise PathEnd("loop not of the form its contract describes")
 
     def run_for(self, I, st, env, it):
         from .interp import SymRange, BreakEx, ContinueEx
@@ -794,7 +850,7 @@ class LoopSpec:
             i = z3.Int(core.fresh_name("it"))
             I.ctx.assume(z3.And(i >= 0, i < N))
             self._havoc_guard(I, st, env, None)
-            self.make(I, env, Sym(i, "int"))
+            self.make(I, self._view(env), Sym(i, "int"))
             I.assign(st.target, item_fn(I, Sym(i, "int")) if item_fn else Sym(i, "int"), env)
             try:
                 I.exec_block(st.body, env)
@@ -806,7 +862,7 @@ class LoopSpec:
             raise PathEnd("loop step verified")
         I.ctx.assume(N >= 0)
         self._havoc_guard(I, st, env, None)
-        self.make(I, env, concretize(Sym(N, "int")))
+        self.make(I, self._view(env), concretize(Sym(N, "int")))
         if st.orelse:
             I.exec_block(st.orelse, env)
 
@@ -816,7 +872,7 @@ class LoopSpec:
         self._check(I, env, None, "inv-init")
         which = I.choose(2, "loop")
         self._havoc_guard(I, st, env, None)
-        self.make(I, env, None)
+        self.make(I, self._view(env), None)
         c = I.truth(I.eval(st.test, env))
         if which == 0:
             if not c:
@@ -836,8 +892,16 @@ class LoopSpec:
 
 
 def _session_loop(self, qualname, ordinal, spec):
-    """attach a loop contract to the `ordinal`-th loop (pre-order) of repo function `qualname`"""
-    self.find(qualname)
+    """attach a loop contract to the `ordinal`-th loop (pre-order) of repo function `qualname`.  The contract speaks
+    about the loop state by the local names of the source it was written against; they are re-aligned with the
+    current source by use signatures (tpv.localnames), so a commit that only renames locals keeps the contract usable"""
+    from . import localnames
+
+    fn = self.find(qualname)
+    try:
+        spec.name_map = localnames.loop_mapping(qualname, fn.node, ordinal)
+    except Exception:
+        spec.name_map = {}
     self.I.loop_specs[(qualname, ordinal)] = spec
 
 
